@@ -5,6 +5,7 @@ import Martian.VdrBuild
 import Martian.VdrVal
 import Martian.VdrEval
 import Martian.VdrHyp
+import Martian.VdrWalk
 
 /-! Line-protocol handler for properties C04 / C14 (the VDR model).
 
@@ -72,6 +73,13 @@ def parseDisk (s : String) : Option (List DiskEnt) :=
       let k ← parseKind k
       let alts ← pathList alts
       pure { path := p, size := sz, kind := k, alts := alts }
+    | [p, sz, k, alts, h] => do
+      let p ← pathOfHex p
+      let sz ← sz.toNat?
+      let k ← parseKind k
+      let alts ← pathList alts
+      let h ← h.toNat?
+      pure { path := p, size := sz, kind := k, alts := alts, hash := h }
     | _ => none
 
 def parseCache (s : String) : Option (Option (List Entry)) :=
@@ -118,6 +126,7 @@ def showState (s : St) : String :=
   " count=" ++ toString s.report.count ++
   " size=" ++ toString s.report.size ++
   " paths=" ++ showPaths (topLevel s.report.paths).eraseDups ++
+  " kepthash=" ++ toString (((s.disk.map (·.hash)).sum) % 4294967296) ++
   " fileargs=" ++ showAssoc (s.fileArgs.map fun (a, hs) => (a, hs.map showHolder)) ++
   " postnodes=" ++ showAssoc s.postNodes
 
@@ -270,6 +279,32 @@ def parseEnv : Nat → List String → Option (List (Node × Arg × Val) × List
     pure ((n, o, x) :: m, r)
   | _, _ => none
 
+/-- directory trees: `N`, `F name size rest`, `L name target rest`, `D name children rest` -/
+def parseFsTree : Nat → List String → Option (FsTree × List String)
+  | 0, _ => none
+  | _ + 1, "N" :: r => some (.nil, r)
+  | f + 1, "F" :: n :: sz :: r => do
+    let n ← pathOfHex n
+    let sz ← sz.toNat?
+    let (rest, r) ← parseFsTree f r
+    pure (.file n sz rest, r)
+  | f + 1, "L" :: n :: t :: r => do
+    let n ← pathOfHex n
+    let t ← pathOfHex t
+    let (rest, r) ← parseFsTree f r
+    pure (.link n t rest, r)
+  | f + 1, "D" :: n :: r => do
+    let n ← pathOfHex n
+    let (ch, r) ← parseFsTree f r
+    let (rest, r) ← parseFsTree f r
+    pure (.dir n ch rest, r)
+  | _, _ => none
+
+def showWalk (l : List (Path × WKind)) : String :=
+  if l.isEmpty then "." else
+  ",".intercalate (sortStrs (l.map fun x => hexOfPath x.1 ++ ":" ++
+    (match x.2 with | .file => "f" | .dir => "d" | .link => "l")))
+
 def tokens (s : String) : List String := (s.splitOn " ").filter (· != "")
 
 def showTRefs (l : List TRef) : String :=
@@ -304,6 +339,19 @@ def handle (op : String) (args : List String) : Option String :=
     let ops := opsOf tree
     pure ("wf=" ++ boolStr (wfOps [] [] ops) ++ " scoped=" ++ boolStr (scopedB [] tree).isSome ++ " " ++
       showTabs (build ops))
+  | "walk", [root, node] => do
+    let root ← pathOfHex root
+    let tk := tokens node
+    let (rn, t) ← match tk with
+      | ["m"] => some (RootNode.missing, FsTree.nil)
+      | ["f"] => some (RootNode.file 0, FsTree.nil)
+      | ["l"] => some (RootNode.link [], FsTree.nil)
+      | "d" :: r => do
+        let (t, rest) ← parseFsTree (r.length + 1) r
+        if !rest.isEmpty then none
+        pure (RootNode.dir t, t)
+      | _ => none
+    pure ("wf=" ++ boolStr t.wf ++ " " ++ showWalk (walk root rn))
   | "reach", [e, env, v] => do
     let te := tokens e
     let tn := tokens env
